@@ -235,7 +235,24 @@ def run_case(rng, tier, case):
                         direct = np.asarray(P.setup_optim_problem(sm_, b.timegrid, costs_only=True), float)
                         case.check('purity.cost_sample_equals_direct_cost_vector', direct.shape == np.asarray(cv_).shape and bool(np.array_equal(direct, np.asarray(cv_, float))), sample=q_,
                                    worst=float(np.max(np.abs(direct - np.asarray(cv_, float)))) if direct.shape == np.asarray(cv_).shape and len(direct) else None)
-                    SLP.make_slp(o, P, b.timegrid, b.timegrid.timepoints[k_], samp)
+                    if rng.random() < 0.5:
+                        P.setup_optim_problem(pr2, tg2)          # (the portfolio is used on another grid before the stochastic program is built for the first one)
+                    # the same stochastic program from freshly built objects
+                    slp_f = None
+                    try:
+                        b5 = build(spec)
+                        slp_f = Snap(SLP.make_slp(b5.portfolio.setup_optim_problem(b5.prices, b5.timegrid), b5.portfolio, b5.timegrid, b5.timegrid.timepoints[k_], samp))
+                    except Exception:
+                        slp_f = None
+                    try:
+                        slp_u = Snap(SLP.make_slp(o, P, b.timegrid, b.timegrid.timepoints[k_], samp))
+                        if slp_f is not None:
+                            d5 = problem_diff(slp_u, slp_f, rtol=1e-12, compare_mapping=False)
+                            case.check('purity.slp_same_as_from_fresh_objects', d5 is None, diff=d5, boundary_step=k_)
+                    except Exception as e5:
+                        if slp_f is not None:
+                            case.check('purity.slp_same_as_from_fresh_objects', False, boundary_step=k_, error='%s: %s' % (type(e5).__name__, str(e5)[:160]))
+                        raise
                 elif op == 'fix_window_call':
                     # a user-supplied fix_time_window dictionary (window given as a date, previous solution longer than this problem - the documented
                     # SLP case) is used for a set-up on another grid; the SAME dictionary is used again in the final probe
